@@ -130,11 +130,15 @@ def unbox(v, st):
     return st.get(heap_key(v), TOP) if is_handle(v) else v
 
 
-def unbox_deep(v, st, depth=0):
+def unbox_deep(v, st, depth=0, iters=False):
+    """``v`` with every heap reference replaced by what it refers to now; with ``iters`` also every iterator object
+    over a known sequence by the elements it has left (how a rule reads a value the analysed code returned)."""
     if is_handle(v):
         v = st.get(heap_key(v), TOP)
+    if iters and isinstance(v, tuple) and len(v) == 2 and v[0] == "seqiter" and isinstance(st.get(f"it.{v[1]}"), tuple):
+        v = st.get(f"it.{v[1]}")
     if isinstance(v, tuple) and depth < 8 and any(isinstance(x, tuple) for x in v):
-        return tuple(unbox_deep(x, st, depth + 1) if isinstance(x, tuple) else x for x in v)
+        return tuple(unbox_deep(x, st, depth + 1, iters) if isinstance(x, tuple) else x for x in v)
     return v
 
 
@@ -1916,7 +1920,11 @@ class Interp:
         """
         depth = caller.depth + 1 if caller is not None else 0
         if depth > self.max_depth:
-            raise Undecided(f"inlining bound {self.max_depth} exceeded at {getattr(func, 'name', '<lambda>')}")
+            chain, f_ = [], caller
+            while f_ is not None and len(chain) < 30:
+                chain.append(getattr(getattr(f_, "func", None), "name", "<lambda>"))
+                f_ = getattr(f_, "parent", None) or getattr(f_, "caller", None)
+            raise Undecided(f"inlining bound {self.max_depth} exceeded at {getattr(func, 'name', '<lambda>')} (called from {' <- '.join(chain)})")
         raw = any(n_ == "<raw>" for n_, _ in closure_env)
         if raw:
             closure_env = tuple(kv for kv in closure_env if kv[0] != "<raw>")
@@ -2288,5 +2296,5 @@ class Interp:
             if not self.changed:
                 break
         if getattr(self.domain, "heap", False):
-            res = dedupe([Result(r.kind, unbox_deep(r.value, r.state), without_heap(r.state)) for r in res])
+            res = dedupe([Result(r.kind, unbox_deep(r.value, r.state, iters=True), without_heap(r.state)) for r in res])
         return res
